@@ -74,18 +74,22 @@ Definition u32 (bs : list N) : N :=
 Definition u32_bytes (v : N) : list N :=
   [(v / 16777216) mod 256; (v / 65536) mod 256; (v / 256) mod 256; v mod 256]%N.
 
-Record pg1 := { g_commit : list N; g_n : N; g_resp : list (list N); g_trail : list N }.
+(* g_nb: the 4 raw bytes of the response count *)
+Record pg1 := { g_commit : list N; g_nb : list N; g_resp : list (list N); g_trail : list N }.
+Definition g_n (p : pg1) : N := u32 (g_nb p).
 
 (* ParseProofG1: 48-byte commitment, 4-byte response count, 32 bytes per response; trailing bytes ignored *)
 Definition parse_pg1 (bs : list N) : option pg1 :=
   if length bs <? 52 then None
   else let k := u32 (firstn 4 (skipn 48 bs)) in
        if (N.of_nat (length bs) <? 52 + k * 32)%N then None
-       else Some {| g_commit := firstn 48 bs; g_n := k;
+       else Some {| g_commit := firstn 48 bs; g_nb := firstn 4 (skipn 48 bs);
                     g_resp := chunks 32 (N.to_nat k) (skipn 52 bs);
                     g_trail := skipn (52 + 32 * N.to_nat k) bs |}.
 
-Record layout := { l_aprime : list N; l_abar : list N; l_d : list N; l_len1 : N; l_vc1 : pg1; l_vc2 : pg1 }.
+(* l_len1b: the 4 raw bytes of the VC1 length field *)
+Record layout := { l_aprime : list N; l_abar : list N; l_d : list N; l_len1b : list N; l_vc1 : pg1; l_vc2 : pg1 }.
+Definition l_len1 (l : layout) : N := u32 (l_len1b l).
 
 Inductive parsed (A : Type) := POk (a : A) | PErr | PPanic.
 Arguments POk {A}. Arguments PErr {A}. Arguments PPanic {A}.
@@ -99,13 +103,13 @@ Definition parse_sigproof (v : variant) (bs : list N) : parsed layout :=
        else match parse_pg1 (firstn (N.to_nat l1) (skipn 148 bs)), parse_pg1 (skipn (148 + N.to_nat l1) bs) with
             | Some p1, Some p2 =>
                 POk {| l_aprime := firstn 48 bs; l_abar := firstn 48 (skipn 48 bs); l_d := firstn 48 (skipn 96 bs);
-                       l_len1 := l1; l_vc1 := p1; l_vc2 := p2 |}
+                       l_len1b := firstn 4 (skipn 144 bs); l_vc1 := p1; l_vc2 := p2 |}
             | _, _ => PErr
             end.
 
-Definition pg1_bytes (p : pg1) : list N := g_commit p ++ u32_bytes (g_n p) ++ concat (g_resp p) ++ g_trail p.
+Definition pg1_bytes (p : pg1) : list N := g_commit p ++ g_nb p ++ concat (g_resp p) ++ g_trail p.
 Definition layout_bytes (l : layout) : list N :=
-  l_aprime l ++ l_abar l ++ l_d l ++ u32_bytes (l_len1 l) ++ pg1_bytes (l_vc1 l) ++ pg1_bytes (l_vc2 l).
+  l_aprime l ++ l_abar l ++ l_d l ++ l_len1b l ++ pg1_bytes (l_vc1 l) ++ pg1_bytes (l_vc2 l).
 
 (* a single-position alteration: byte pos is XOR-ed with a non-zero mask *)
 Fixpoint alter (pos : nat) (x : N) (bs : list N) : list N :=
